@@ -243,7 +243,7 @@ RULE = (
 
 def build(tier):
     return CheckSpec(
-        [Sub("scenarios", run_case, strategy=_case, budget={"quick": 2500, "thorough": 50000}, max_wall={"quick": 55, "thorough": 2400})],
+        [Sub("scenarios", run_case, strategy=_case, budget={"quick": 2500, "thorough": 250000}, max_wall={"quick": 55, "thorough": 3600})],
         RULE,
         assumptions=["OS boundary replaced by vlib.simnet", "EXCHANGE_LIFETIME of the default TransportTuning (247 s)"],
         selftest=selftest,
